@@ -1,8 +1,30 @@
 """C11 — legalization does not move an already legal single-row placement."""
 VARIANT = "san"
 RULE = "see stats"
-PARTIAL = []
-ASSUMPTIONS = []
-LEVEL_TEXT = "tbd"
-LEVEL_NOTE = "tbd"
-TECHNIQUE = "tbd"
+TIMEOUT = {"quick": 1500, "thorough": 6 * 3600, "search": 3600}
+PARTIAL = [
+    "circuit-level idempotence (legalize_idempotent_full_statement) is not proved; proved for all inputs are its two "
+    "mechanisms at segment level: order_preserved (exact key, 0<=orderingWidth<=1: a cell entirely left of another in the same "
+    "row sorts first, for every orderingY/orderingHeight/index), order_never_inverted_rounded (any monotone rounding, e.g. "
+    "binary32: the order can only differ on an exact tie of rounded keys), rowleg_no_conflict (in-order non-overlapping "
+    "targets: cost 0 at every push, placement = targets) and their combination legalize_idempotent_partial. NOT proved: "
+    "sortKeys is a sorted permutation, AbacusLegalizer::placeCell keeps a legal cell in its own segment, import/export "
+    "plumbing. Supported by re-legalizing legal placements (outputs of legalize and directly constructed) on the real code "
+    "and on the model.",
+    "the exact-key theorems assume the float key is exact (the property's own restriction |v| < 2^20); the driver uses the "
+    "binary32 model f32 and the stream compares the computed order itself (`order` lines).",
+]
+ASSUMPTIONS = [
+    "same model and assumptions as C01 (lean/ColoVerif/Model/Legalize.lean)",
+    "legal placement = positions legal by the independent oracle and polarised cells carry the orientation their row demands",
+    "KF-C11-1 classifier: the run's legalization.orderingWidth is outside [0,1]",
+]
+LEVEL_TEXT = ("Lean 4 theorems over the executable legalization model: order preservation of the ordering key for orderingWidth in "
+              "[0,1] (exact key, and non-inversion under any monotone rounding), zero-cost/no-move of RowLegalizer on conflict-free "
+              "targets, their single-segment combination, and the kernel-evaluated negation for orderingWidth = 2 (KF-C11-1 "
+              "witness, replayed on the code). Tied to Circuit::legalize by a differential stream of legal placements "
+              "(legalize then legalize again) with parameters over the whole accepted range; the direct oracle compares x/y "
+              "before and after on the real code")
+LEVEL_NOTE = ("Trusted: Lean kernel (axioms propext/Classical.choice/Quot.sound only), the model's tie to the code (differential), "
+              "unbounded Int, f32 model of binary32. Known finding KF-C11-1 (orderingWidth outside [0,1]) is classified, not fixed.")
+TECHNIQUE = "Lean 4 proof + correspondence stream on legal placements + before/after oracle + known-finding classifier"
